@@ -1287,6 +1287,10 @@ def cmp_fields(d, path, e, a, owner):
             d.flag('field:readable', '%s.%s' % (path, name), b(c, 'readable', True), f.get('readable'))
             d.flag('field:writable', '%s.%s' % (path, name), b(c, 'writable', False), f.get('writable'))
             cmp_attrs(d, 'field', '%s.%s' % (path, name), c, f)
+            try:
+                d.flag('field:bits', '%s.%s' % (path, name), int(c.get('bits', '0')), f.get('bits'))
+            except ValueError:
+                pass
             cbk = kids(c, 'callback')
             if cbk:
                 ty = f.get('type', {})
